@@ -5,10 +5,10 @@ HERE = os.path.dirname(os.path.dirname(os.path.abspath(__file__)))
 
 CLAIMS = {
  "C01": dict(cat="exploration", tech="trace validation (TLC) against an executable TLA+ reference cipher",
-   text="Traces of the real single-block functions (all six SKINNY variants, both directions, full and reduced rounds) are validated event by event by TLC against SkinnySpec.tla, a paper-level TLA+ transcription of SKINNY gated by the published vectors. Input space is sampled with structured families (every cell value in every position at reduced rounds, walking key bytes, patterns, random); a block cipher has no interesting state graph, so TLA+ serves as executable oracle.",
+   text="Traces of the real single-block functions (all six SKINNY variants, both directions, full and reduced rounds; default, 32-bit-word and byte-order-neutral builds; prefix/extension keys; a fresh process in which other uses of the library come first) are validated event by event by TLC against SkinnySpec.tla, a paper-level TLA+ transcription of SKINNY gated by the published vectors. Input space is sampled with structured families (every cell value in every position at reduced rounds, walking key bytes, patterns, random); a block cipher has no interesting state graph, so TLA+ serves as executable oracle.",
    note="Trusted: TLC evaluation of SkinnySpec.tla; the six published vectors as anchor of the oracle. Sampling of 2^128..2^512 input spaces.", ref="5 C01"),
  "C02": dict(cat="exploration", tech="trace validation (TLC) against an executable TLA+ reference cipher",
-   text="Traces of mantis_set_key/set_tweak/ecb_crypt/ecb_crypt_tweaked (rounds 5..8 and reduced, both modes, stored and per-call tweak) are validated by TLC against MantisSpec.tla (paper-level MANTIS, gated by the four published vectors in both directions), including the schedule image (k0,k0',k1,tweak,rounds) after every call.",
+   text="Traces of mantis_set_key/set_tweak/ecb_crypt/ecb_crypt_tweaked (rounds 5..8 and reduced, both modes, stored and per-call tweak; default, 32-bit-word and byte-order-neutral builds) are validated by TLC against MantisSpec.tla (paper-level MANTIS, gated by the four published vectors in both directions), including the schedule image (k0,k0',k1,tweak,rounds) after every call.",
    note="Trusted: TLC evaluation of MantisSpec.tla; published vectors. Input space sampled.", ref="5 C02"),
 }
 
@@ -16,16 +16,16 @@ MC = "model_checking"
 TV = "TLC: exhaustive design-level model + trace validation of the real library against the TLA+ contract"
 CLAIMS.update({
  "C03": dict(cat=MC, tech=TV, ref="5 C03",
-   text="Mantis mode machine MC_Mode.tla is checked exhaustively by TLC in a symbolic xor algebra (all keys/tweaks at once): swap.swap = id, swap = rekey in the other mode with the tweak kept; two wrong swaps must fail. The real MantisKey_t and parallel objects are driven along random walks of that machine and every state image and output is validated by TLC against MantisSpec in the model's mode; for SKINNY the same arbitrary blocks go through encrypt and decrypt of single-block and parallel functions on every back end, each validated against SkinnySpec, so the round trip follows from conformance and Dec.Enc=id of the specification.",
+   text="Mantis mode machine MC_Mode.tla is checked exhaustively by TLC in a symbolic xor algebra (all keys/tweaks at once): swap.swap = id, swap = rekey in the other mode with the tweak kept; two wrong swaps must fail. The real MantisKey_t and parallel objects are driven along random walks of that machine and every state image and output is validated by TLC against MantisSpec in the model's mode; for SKINNY the same arbitrary blocks go through encrypt and decrypt of single-block and parallel functions on every back end, each validated against SkinnySpec, so the round trip follows from conformance and Dec.Enc=id of the specification, which MC_Cipher.tla checks (Mix/InvMix and Mantis M exhaustively per 4-bit column, rounds and whole ciphers on a deterministic sample). Every edge of the mode machine's TLC state graph is executed on the real objects.",
    note="Exhaustive within MC_Mode's constants (2 keys, 3 tweaks, 7 calls); code side samples inputs. Inverse of vector S-boxes driven at reduced rounds over every cell value."),
  "C04": dict(cat=MC, tech=TV, ref="5 C04",
-   text="MC_Tweak.tla: the incremental tweak update as the code performs it (xor remembered tweak out, new one in, remember) is checked exhaustively by TLC against 'schedule = Fresh(key, last tweak)' for all call sequences to depth 4 in a symbolic xor algebra; three wrong update rules must fail. Traces of skinny128/64_set_tweaked_key/set_tweak and the CTR tweak API (every length 1..bs, NULL, invalid lengths, random histories) are validated by TLC: after every call the logged schedule image and remembered tweak must equal the schedule SkinnySpec computes afresh from key and latest tweak (TK1 = tweak with domain constant).",
+   text="MC_Tweak.tla: the incremental tweak update as the code performs it (xor remembered tweak out, new one in, remember) is checked exhaustively by TLC against 'schedule = Fresh(key, last tweak)' for all call sequences to depth 4 in a symbolic xor algebra; three wrong update rules must fail. Traces of skinny128/64_set_tweaked_key/set_tweak and the CTR tweak API (every length 1..bs, NULL, invalid lengths, random histories) are validated by TLC: after every call the logged schedule image and remembered tweak must equal the schedule SkinnySpec computes afresh from key and latest tweak (TK1 = tweak with domain constant). Every edge of the tweak machine's TLC state graph is executed on the real objects; a fresh process uses plain keys first.",
    note="Exhaustive within MC_Tweak's constants; code side: lengths enumerated, values and histories sampled."),
  "C05": dict(cat=MC, tech=TV, ref="5 C05",
    text="MC_Ctr.tla: implementation-shaped CTR models (counter lanes, keystream buffer, offset, three-way copy loop) for batch sizes 1,2,4 (8 in thorough) are checked by TLC to refine the stream-position contract (output = input xor E(c),E(c+1).. independent of call boundaries) over all call sequences of Init/SetCounter/SetKey/Encrypt(0..2B*bs+1) with radix-4 two-digit counters (all carries, wrap-around). Real streams (default counter after init, all-FF, FF-suffix carry chains, short and NULL counters, irregular cuts around block and 4/8-block batch boundaries, zero-length calls, in place) for Skinny-64/128 plain and tweaked and Mantis on every back end are validated by TLC against the real cipher in TLA+.",
    note="Design-level exhaustive within constants; code-level inputs sampled, lower back ends accepted by identity with the TLC-validated reference trace or validated themselves."),
  "C06": dict(cat=MC, tech=TV, ref="5 C06",
-   text="Product of the implementation-shaped CTR models for all batch sizes driven in lock-step by TLC (all call sequences incl. key change mid-stream): outputs and denoted stream positions agree; the as-shipped transitions (lanes not staggered, batch dropped on rekey) must fail. Every CTR and parallel scenario (incl. mid-stream key/tweak/counter changes, invalid calls, unkeyed objects) is executed under each back-end cap (hook H2); the reference trace is validated by TLC against the contract, which mentions no back end, and the other traces must be identical up to the back-end name or are validated by TLC themselves.",
+   text="Product of the implementation-shaped CTR models for all batch sizes driven in lock-step by TLC (all call sequences incl. key change mid-stream): outputs and denoted stream positions agree; the as-shipped transitions (lanes not staggered, batch dropped on rekey) must fail. Every CTR and parallel scenario (incl. mid-stream key/tweak/counter changes, invalid calls, unkeyed objects) is executed under each back-end cap (hook H2); the reference trace is validated by TLC against the contract, which mentions no back end, and the other traces must be identical up to the back-end name or are validated by TLC themselves. Includes an unconstrained API fuzz (any function, any argument class, any order - the contract models even the improper key/tweak combinations) and 'same value set again' scenarios.",
    note="A back end the host CPU lacks cannot be run; the cap only lowers the probe's answer."),
  "C07": dict(cat=MC, tech=TV, ref="5 C07",
    text="MC_Par.tla: batch loop + remainder loop equals the map over blocks for every byte count 0..51 (block = 2), psize 4 and 8 blocks, with and without vector table; ragged sizes rejected; dropping the remainder loop must fail. Real parallel encrypt/decrypt/crypt calls with 0..19 blocks (25 thorough), ragged sizes, in/out of place, distinct Mantis tweak per block, all key sizes/rounds/modes, reduced-round S-box sweeps, on every back end, validated block by block by TLC against the specification's single-block cipher; parallel_size against the contract's ParSize(kind, back end).",
@@ -34,7 +34,7 @@ CLAIMS.update({
    text="MC_KeyLen.tla: word-wise model of the partial tweakey load, exhaustive over every length 0..3bs+16 and a huge class x entry point x prior state: accepted iff documented, loaded tweakey = zero-padded key, rejected = unchanged; the as-shipped load must fail. On the code EVERY length 0..3*bs+16 plus 2^31-1, 2^32-1 and wrap-around classes is tried on all 13 key-setting entry points (Mantis: all rounds 0..11 and huge) with non-zero key bytes and a painted stack; schedule images and subsequent outputs validated by TLC against the zero-padded key, rejections must leave state and outputs unchanged.",
    note="Length dimension enumerated completely; key bytes sampled."),
  "C14": dict(cat=MC, tech=TV, ref="5 C14",
-   text="MC_Life.tla (handle fields, heap, init with failure, use, cleanup; 2 objects) is checked exhaustively: a call succeeds iff the object is live, no crash, failed == dead; the as-shipped init must fail. On the code every <object phase x function x invalid-argument class> per kind and back end is executed inside valid histories; TLC validates return values and that all later outputs are what the contract predicts when the invalid call is ignored; guarded arenas detect any access outside the given buffers, snapshots detect stray writes.",
+   text="MC_Life.tla (handle fields, heap, init with failure, use, cleanup; 2 objects) is checked exhaustively: a call succeeds iff the object is live, no crash, failed == dead; the as-shipped init must fail. On the code every <object phase x function x invalid-argument class> per kind and back end is executed inside valid histories; TLC validates return values and that all later outputs are what the contract predicts when the invalid call is ignored; guarded arenas detect any access outside the given buffers, snapshots detect stray writes. Every edge of the abstract CTR machine (Gen_Ctr: 9 states, ~270 edges) and parallel machine (Gen_Par) dumped by TLC is executed on all kinds and back ends.",
    note="Invalid classes enumerated from the property statement; values sampled."),
  "C15": dict(cat=MC, tech=TV, ref="5 C15",
    text="MC_Life.tla exhaustively: heap blocks owned = live objects (NoLeak), no invalid free (FreeOnce), inert after death, over all interleavings of init/use/cleanup/caller overwrite on 2 objects. Real random interleavings over 4 objects of mixed kinds and reuse cycles run with a wrapped allocator; every call's allocator activity is part of the trace validated by TLC; released blocks are PROT_NONE so use-after-free is a crash event.",
@@ -43,7 +43,7 @@ CLAIMS.update({
    text="Complete enumeration of: six init functions x every back end x six prior contents of the caller's object x failure of the single allocation each init makes (84 cases), each followed by cleanup and every other call in both orders, then successful re-init and use; validated by TLC against the contract (failed behaves exactly as dead, nothing leaked). MC_Life enumerates the failure branch at every init of the design model.",
    note="Each init makes one allocation (observed in every trace)."),
  "C17": dict(cat=MC, tech=TV, ref="5 C17",
-   text="MC_Life.tla WipedAtFree over all interleavings; on the code the wrapped free() inspects every byte of the block as allocated before releasing it and the trace spec requires zero non-zero bytes at every cleanup, for histories that dirty every context region, per kind and back end.",
+   text="MC_Life.tla WipedAtFree over all interleavings; on the code the wrapped free() inspects every byte of the block as allocated before releasing it and the trace spec requires zero non-zero bytes at every cleanup, for histories that dirty every context region, per kind and back end, and with cleanup immediately after EVERY transition of the CTR and parallel machines with key-size classes (TLC state graphs Gen_Ctr_sizes / Gen_Par_sizes), so that every final context state (re-keyed long->short, buffer used up exactly, position just reset) is reached.",
    note="The inspection happens inside free(), i.e. after the library's wipe and before release."),
 })
 
@@ -55,7 +55,7 @@ CLAIMS.update({
    text="MC_Mem.tla: flat byte arena, every placement/overlap of input and output windows for single-block calls and exact aliasing for bulk calls: result = F(pre-state input) and frame condition; a store-as-you-go variant must fail. On the code every pointer argument is placed flush against PROT_NONE pages (end and start) and at alignments 0..31 in canary arenas that are compared after each call; every overlap offset for every single-block function; every accepted key/tweak/counter length at the guard; bulk calls 0..17 blocks in and out of place; every back end plus the byte-wise build; all outputs validated by TLC against the alignment-free specification.",
    note="Reads that stay inside mapped unguarded memory are invisible here (C08's address traces see them)."),
  "C11": dict(cat="exploration", tech="trace identity under memory/compiler perturbation against a TLC-validated deterministic contract", ref="5 C11",
-   text="The contract (SkinnyTrace/Contract) is deterministic (MC_Det checks the position machine has one successor per call), so any dependence on uninitialised memory that reaches an observable shows as a trace that differs from the validated reference. The scenario sets of C01-C07, C10 (every in-between key length), C14 run with painted stacks (0x00/0xFF/0xA5/ramp), pre-filled handles, fresh/poisoned heap, in separate processes, under gcc -O0/-O3 and clang -O2 (thorough: more); all traces must be identical to the reference, a sample of which TLC validates.",
+   text="The contract (SkinnyTrace/Contract) is deterministic (MC_Det checks the position machine has one successor per call), so any dependence on uninitialised memory that reaches an observable shows as a trace that differs from the validated reference. The scenario sets of C01-C07, C10 (every in-between key length), C14 run with painted stacks (0x00/0xFF/0xA5/ramp), pre-filled handles, fresh/poisoned heap, in separate processes, under gcc -O0/-O3 and clang -O2 (thorough: more); all traces must be identical to the reference, a sample of which TLC validates. The guard-off library must have no writable static storage (event validated by the trace spec).",
    note="Cannot show absence of an uninitialised read whose value never reaches an observable."),
  "C12": dict(cat="exploration", tech="trace identity across a build matrix (hook H1) against a TLC-validated reference", ref="5 C12",
    text="Every compile-time path is built through hook H1 ({64/32-bit} x {unaligned on/off} x {LE+V128+V256, LE+V128, LE, neutral} x {gcc, clang} x {-O0..-O3}: 128 builds thorough, 12-build pairwise cover quick) and runs the scenario sets of C01-C07, C10, C14 including reduced-round S-box sweeps; every execution must equal the shipped build's trace up to the back-end name; differing executions are validated by TLC to locate the fault.",
